@@ -71,7 +71,7 @@ LEAN += ["Ymq.Props.C16Pm1b"]
 THEOREMS += ["Ymq.C16." + t for t in (
     # second pass on both whole-function models (Props/C16Pm1b.lean)
     "pp1_baby_complete pp1_baby_exact pp1_stage2_found pp1_stage2_product_zero "
-    "pm1_exp_modn_residues pm1_gap_table_in_range pm1_walk_block_no_panic pm1_walk_stop_prime_found pm1_walk_found_partial pm1_baby_complete pm1_walk_stop_prime_kept pm1_polyeval_giant_assert_holds pm1_polyeval_baby_assert_holds pm1_polyeval_no_panic_partial pm1_polyeval_no_panic pp1_stage1_block_no_panic pp1_stage2_vals_no_panic").split()]
+    "pm1_exp_modn_residues pm1_gap_table_in_range pm1_walk_block_no_panic pm1_walk_stop_prime_found pm1_walk_found_partial pm1_baby_complete pm1_walk_stop_prime_kept pm1_polyeval_giant_assert_holds pm1_polyeval_baby_assert_holds pm1_polyeval_no_panic_partial pm1_polyeval_no_panic pp1_stage1_block_no_panic pp1_stage2_vals_no_panic pm1_exp_modn_large_residues pm1_apply_ev_no_panic").split()]
 HYPOTHESES = [
     "C17 (stage-1 exponent coverage): the exponent E accumulated by stage 1 is divisible by every prime power below B1 "
     "(and by every prime <= B1 for P-1/P+1); enters pm1_hit / pp1_hit / ecm_hit as the premise `group order of p divides E*m`",
